@@ -106,6 +106,8 @@ def exc_site(exc, prefer=("bionumpy",)):
 
 
 def originates_in_library(exc):
+    if getattr(exc, "library_fault", False):
+        return True
     tb = traceback.extract_tb(exc.__traceback__)
     if not tb:
         return False
